@@ -20,6 +20,22 @@ NA = {
 }
 
 CHECKS = {
+    "C07": dict(
+        technique="flow-sensitive output-context taint analysis (text vs attribute-value context from the constant text around each "
+                  "interpolation; escape/quoteattr sanitisers; one-level wrapper inlining), tag-name agreement, constant folding of the re-declaration helper",
+        text="Partial: the escaping discipline well-formedness depends on is decided for every interpolation of node data in both "
+             "exporters, plus tag balance and the namespace re-declaration rule; parse-back equality needs a parser run and is not decided.",
+        note="names/prefixes are XML-legal by the quantifier; EML-exporter pruning idioms (pre-escaped entities, inline para) are recognised by "
+             "the shape of the test, not by text",
+        ref="DESIGN.md section 3, C07"),
+    "C08": dict(
+        technique="provenance sets (which infoset item each stored expression derives from), raw-path identity, sibling agreement of the "
+                  "text and tail policy blocks up to renaming, loop-shape rules, attribute-split guard evaluated on plain/Clark names, "
+                  "reserved-namespace constant",
+        text="Partial and the thinnest claim: field provenance, raw identity, text/tail sibling agreement, child coverage/order, "
+             "attribute split and the reserved xml: prefix are decided; lxml's parsing and the whitespace policy on all strings are not.",
+        note="import-export-import stability is not decided",
+        ref="DESIGN.md section 3, C08"),
     "C06": dict(
         technique="positional layout extraction (writer key sequence vs reader (index, key) pairs), field-coverage set comparison with "
                   "value provenance to the restoring sink, abstract execution of the upgrade's constant-index inserts",
